@@ -94,5 +94,32 @@ Proof. reflexivity. Qed.
 
 (* the alias table the proofs rely on, as extracted from the source *)
 Lemma alias_table_l : from_pipeline_edges = Copy /\ build_wiring = Copy /\ dsb_init_schema = Copy /\ build_container_schema = Copy /\
-  build_instances_fresh = true /\ connect_creates_fresh = true /\ clear_inputs_fresh = true /\ clone_via_config = true.
+  build_instances_fresh = true /\ connect_creates_fresh = true /\ clear_inputs_fresh = true /\ clone_via_config = true /\
+  connect_resolves_alias = true.
 Proof. repeat split; reflexivity. Qed.
+
+(* the scan of every function that is handed a built dataset / container / pipeline finds no statement writing through it *)
+Lemma no_source_writes_l : source_param_writes = [].
+Proof. reflexivity. Qed.
+
+(* a component may be named by its node name or by any alias of it: connect() edits the same wiring dictionary and the
+   resulting state is the same *)
+Lemma connect_alias_l : forall s i b a t f,
+  nth_error (st_pblds s) i = Some b -> dget a (p_aliases b) = Some t -> dget t (p_aliases b) = None ->
+  step s (PBWire i a f) = step s (PBWire i t f).
+Proof.
+  intros s i b a t f Eb Ea Et. cbn [step]. rewrite Eb. cbv zeta. unfold resolve. rewrite Ea, Et. reflexivity.
+Qed.
+
+(* connect() on the builder just obtained from modify(), the component named by any string (node name or ALIAS of the pipeline):
+   the pipeline is observed unchanged *)
+Lemma connect_alias_frozen_l : forall s j p a f, inv s -> nth_error (st_pipes s) j = Some p ->
+  let s1 := step s (PModify j) in
+  let s2 := step s1 (PBWire (length (st_pblds s)) a f) in
+  nth_error (st_pipes s2) j = Some p /\
+  po_edges (obs_p s2 p) = po_edges (obs_p s p) /\ po_aliases (obs_p s2 p) = po_aliases (obs_p s p).
+Proof.
+  intros s j p a f I Hp. cbv zeta.
+  destruct (pipeline_config_frozen_l [PModify j; PBWire (length (st_pblds s)) a f] s j p I Hp) as [H1 [H2 [_ [H3 _]]]].
+  cbn [run fold_left] in *. repeat split; assumption.
+Qed.
